@@ -4,6 +4,7 @@
 //   OK final=<...> TRACE <event tokens>
 //   DEADLOCK why=<..> STATE <component state printed by the on_deadlock hook> CHOICES <c,c,..> TRACE <event tokens>
 //   BADCASE <reason>
+//   SKIPPED <reason>      (only after three cases ran into the step bound: the check has its violations by then)
 //
 // Case file, one case per line (blank-separated):
 //   sem <initial> <strategy> <spurious> <seed> [choices=c,c,..] | <call> <call> .. | <call> .. | ..     (one "|" block per thread)
@@ -175,7 +176,9 @@ int main(int argc, char** argv) {
     size_t* done = static_cast<size_t*>(mmap(nullptr, sizeof(size_t), PROT_READ | PROT_WRITE, MAP_SHARED | MAP_ANONYMOUS, -1, 0));
     if (done == MAP_FAILED) { perror("mmap"); return 2; }
     *done = 0;
+    int livelocks = 0;   // cases that hit the step bound; after 3 of them the remaining cases are skipped (each costs seconds)
     while (*done < cases.size()) {
+        if (livelocks >= 3) { printf("SKIPPED after_3_step_bound_exits\n"); *done += 1; continue; }
         int fd[2]; if (pipe(fd) != 0) { perror("pipe"); return 2; }
         fflush(stdout);
         pid_t pid = fork();
@@ -209,6 +212,7 @@ int main(int argc, char** argv) {
                 else if (l.rfind("STATE ", 0) == 0) state = l.substr(6);
             }
             for (auto& ch : why) if (ch == ' ') ch = '_';
+            if (why.rfind("step_bound", 0) == 0) ++livelocks;
             printf("DEADLOCK why=%s STATE %s CHOICES %s TRACE %s\n", why.c_str(), state.c_str(), choices.c_str(), trace.c_str());
             *done += 1;   // the deadlocked case is finished
         } else if (!(WIFEXITED(st) && WEXITSTATUS(st) == 0)) {
